@@ -8,6 +8,7 @@
 """
 from vlib import facts, rules, e2props
 from vlib.report import Run
+from vlib import controls
 from props.C01 import ENTRIES
 
 KNOWN_LOOPS = {
@@ -66,6 +67,7 @@ def main(tier):
     run.floor("natural loops found in reachable code", len(loops), 8)
     adaptors = sorted({n for k in reach for (_, _, n) in idx.calls[k] if n.startswith("core::iter::traits::iterator::Iterator::")})
     run.extra["iterator_adaptors_used"] = adaptors
+    controls.selftest(run, ['recursion'])
     run.extra["written_argument"] = ("Iterators: each next() moves strictly along parent / next_sibling / previous_sibling (C09 step tables) or along the "
                                      "Euler tour of a subtree; J3 makes each walk injective and finite, so each node (edge) is yielded at most once.")
     run.assumptions += ["A1 (V)", "sibling-order acyclicity relies on the model equivalence decided under C03/C04"]
